@@ -27,6 +27,10 @@ class Balancer:
         self._ast_hash_map = {}
         self._lower_bounds = {}
         self._upper_bounds = {}
+        # bounds that come from signed comparisons are kept apart: -2 as a lower bound means [-2, INT_MAX], which is not
+        # an interval of the unsigned order
+        self._signed_lower_bounds = {}
+        self._signed_upper_bounds = {}
         self._wrapped_bounds = set()
 
         self.sat = True
@@ -43,34 +47,50 @@ class Balancer:
         return (self.sat, self.replacements)
 
     def _replacements_iter(self):
-        all_keys = set(self._lower_bounds.keys()) | set(self._upper_bounds.keys())
-        for k in all_keys:
+        unsigned_keys = set(self._lower_bounds.keys()) | set(self._upper_bounds.keys())
+        signed_keys = set(self._signed_lower_bounds.keys()) | set(self._signed_upper_bounds.keys())
+        for k in unsigned_keys | signed_keys:
             ast = self._ast_hash_map[k]
-            max_int = (1 << len(ast)) - 1
-            min_int = 0
-            mn = self._lower_bounds.get(k, min_int)
-            mx = self._upper_bounds.get(k, max_int)
-            bound_si = claripy.BVS("bound", len(ast)).annotate(claripy.annotation.StridedIntervalAnnotation(1, mn, mx))
-            log.debug("Yielding bound %s for %s.", bound_si, ast)
+            bits = len(ast)
+            bounded = ast
+            if k in unsigned_keys:
+                mn = self._lower_bounds.get(k, 0)
+                mx = self._upper_bounds.get(k, (1 << bits) - 1)
+                bound_si = claripy.BVS("bound", bits).annotate(claripy.annotation.StridedIntervalAnnotation(1, mn, mx))
+                log.debug("Yielding bound %s for %s.", bound_si, ast)
+                bounded = bounded.intersection(bound_si)
+            if k in signed_keys:
+                mn = self._signed_lower_bounds.get(k, -(1 << (bits - 1)))
+                mx = self._signed_upper_bounds.get(k, (1 << (bits - 1)) - 1)
+                if mn > mx:
+                    bound_si = claripy.ESI(bits)
+                else:
+                    # (as bit patterns; an interval that starts below zero wraps around)
+                    mask = (1 << bits) - 1
+                    bound_si = claripy.BVS("bound", bits).annotate(
+                        claripy.annotation.StridedIntervalAnnotation(1, mn & mask, mx & mask)
+                    )
+                log.debug("Yielding signed bound %s for %s.", bound_si, ast)
+                bounded = bounded.intersection(bound_si)
             if ast.op == "Reverse":
-                yield (ast.args[0], ast.intersection(bound_si).reversed)
+                yield (ast.args[0], bounded.reversed)
             else:
-                yield (ast, ast.intersection(bound_si))
+                yield (ast, bounded)
 
-    def _add_lower_bound(self, o, b):
-        if o.hash() in self._lower_bounds:
-            old_b = self._lower_bounds[o.hash()]
-            b = max(b, old_b)
+    def _add_lower_bound(self, o, b, signed=False):
+        bounds = self._signed_lower_bounds if signed else self._lower_bounds
+        if o.hash() in bounds:
+            b = max(b, bounds[o.hash()])
 
-        self._lower_bounds[o.hash()] = b
+        bounds[o.hash()] = b
         self._ast_hash_map[o.hash()] = o
 
-    def _add_upper_bound(self, o, b):
-        if o.hash() in self._upper_bounds:
-            old_b = self._upper_bounds[o.hash()]
-            b = min(b, old_b)
+    def _add_upper_bound(self, o, b, signed=False):
+        bounds = self._signed_upper_bounds if signed else self._upper_bounds
+        if o.hash() in bounds:
+            b = min(b, bounds[o.hash()])
 
-        self._upper_bounds[o.hash()] = b
+        bounds[o.hash()] = b
         self._ast_hash_map[o.hash()] = o
 
     @property
@@ -762,10 +782,10 @@ class Balancer:
 
         if is_lt:
             current_max = min(int_max, left_max, bound_max)
-            self._add_upper_bound(truism.args[0], current_max)
+            self._add_upper_bound(truism.args[0], current_max, signed=not is_unsigned)
         else:
             current_min = max(int_min, left_min, bound_min)
-            self._add_lower_bound(truism.args[0], current_min)
+            self._add_lower_bound(truism.args[0], current_min, signed=not is_unsigned)
 
     def _handle_eq(self, truism):
         lhs, rhs = truism.args
